@@ -34,8 +34,13 @@ def main():
         i = args.index("--tier"); tier = args[i + 1]; del args[i:i + 2]
     if "--checks" in args:
         i = args.index("--checks"); checks = args[i + 1].split(","); del args[i:i + 2]
+    srcroot, prefix = "/tmp/seed/out", ""
+    if "--src" in args:
+        i = args.index("--src"); srcroot = args[i + 1]; del args[i:i + 2]
+    if "--prefix" in args:
+        i = args.index("--prefix"); prefix = args[i + 1]; del args[i:i + 2]
     pid = args[0]
-    src = "/tmp/seed/out/%s" % pid
+    src = "%s/%s" % (srcroot, pid)
     muts = args[1:] or sorted(f[:-5] for f in os.listdir(src) if f.endswith(".diff"))
     checks = checks or [pid]
     for m in muts:
@@ -92,7 +97,7 @@ def main():
                 shutil.rmtree(evd, ignore_errors=True)
         caught = any(v["rc"] == 1 for v in res["checks"].values())
         res["caught"] = caught
-        dst = "/verif/seeded/%s-%s" % (pid, m)
+        dst = "/verif/seeded/%s-%s%s" % (pid, prefix, m)
         if res["confirmed"]:
             os.makedirs(dst, exist_ok=True)
             shutil.copyfile(diff, os.path.join(dst, "patch.diff"))
